@@ -261,7 +261,7 @@ pub fn run(ctx: &mut Ctx) {
         }
     });
     // (2) random
-    let cases = ctx.tier.pick(3_000u32, 200_000);
+    let cases = ctx.tier.pick(30_000u32, 600_000);
     let nthreads = ctx.threads as u32;
     ctx.parallel(|ti, _n, st| {
         let f = run_proptest(history_strategy(), cases / nthreads + 1, seed ^ 0xC11B ^ ((ti as u64) << 36), st, |h, st| run_one(h, st, "random-history"));
